@@ -159,6 +159,7 @@ impl<'a> Frame<'a> {
 // `matches!(..).then(|| ..)`: bool::then with a closure has no vstd spec; the getter is taken by
 // contract (Kani: same_frame / p_frame_write_roundtrip_* check it on the real function)
 //@ extract wtransport-proto/src/frame.rs >> impl<'a> Frame<'a> >> fn session_id
+//@ opaque_closures 1
 //@ attr #[verifier::external_body]
 //@ requires self.wf()
 //@ ensures r == (if self.kind is WebTransport { self.session_id } else { None::<SessionId> })
@@ -275,6 +276,7 @@ impl StreamHeader {
 
 // `matches!(..).then(|| ..)`: taken by contract (Kani: same_header / p_stream_header_write_roundtrip)
 //@ extract wtransport-proto/src/stream_header.rs >> impl StreamHeader >> fn session_id
+//@ opaque_closures 1
 //@ attr #[verifier::external_body]
 //@ requires self.wf()
 //@ ensures r == self.session_id
